@@ -49,6 +49,8 @@ struct RecPersister {
 	hashes: Arc<Mutex<Vec<[u8; 32]>>>,
 	/// (chan idx, update_id) -> serialized monitor as of that persist call
 	snapshots: Mutex<Vec<(usize, u64, Vec<u8>)>>,
+	/// number of monitor writes this node has made so far
+	nwrites: Mutex<u64>,
 	/// last counterparty-commitment / holder-commitment info seen per channel
 	last_cp: Mutex<HashMap<usize, Value>>,
 	pending: Mutex<Vec<(usize, u64)>>,
@@ -184,6 +186,7 @@ impl RecPersister {
 		let prev: Option<Vec<u8>> = self.snapshots.lock().unwrap().iter().rev().find(|s| s.0 == c).map(|s| s.2.clone());
 		let rt = round_trips(self, prev.as_ref(), update, mon);
 		self.snapshots.lock().unwrap().push((c, id, mon.encode()));
+		*self.nwrites.lock().unwrap() += 1;
 		if inprog {
 			self.pending.lock().unwrap().push((c, id));
 		}
@@ -277,12 +280,19 @@ struct Net {
 	/// number of messages the node had emitted when each snapshot was taken, and so far
 	mgr_msgs: Vec<Vec<u64>>,
 	msgs_emitted: Vec<u64>,
+	/// per snapshot: was the user refusing events (the library then blocks monitor updates, which the
+	/// manager counts but Persist never saw), and how many monitor writes the node had made
+	mgr_evheld: Vec<Vec<bool>>,
+	mgr_writes: Vec<Vec<u64>>,
 	/// channels (by index) on which the node may still hold messages generated before the snapshot it
 	/// was restarted from was taken (they are released when the peer's channel_reestablish is handled
 	/// with no monitor write pending); per snapshot: that set plus the channels with a write in flight
 	dirty: Vec<HashSet<usize>>,
 	mgr_held: Vec<Vec<HashSet<usize>>>,
 	reest_seen: HashSet<(usize, usize)>,
+	/// nodes whose user currently refuses payment events (handler returns ReplayEvent)
+	hold_events: Vec<bool>,
+	refused_logged: HashSet<(usize, String, usize)>,
 	/// snapshot index remembered by a `save` script step (the manager the application wrote last)
 	saved_idx: Vec<Option<usize>>,
 	node_cfgs: &'static Vec<NodeCfg<'static>>,
@@ -435,7 +445,32 @@ impl Net {
 					},
 				}
 			}
-			let events = self.nodes[i].node.get_and_clear_pending_events();
+			let events = if !self.hold_events[i] { self.nodes[i].node.get_and_clear_pending_events() } else {
+				// the user's handler refuses (ReplayEvent) the payment events for now: the library must keep
+				// them and hand them over again later (and must not run their completion actions yet)
+				use lightning::events::EventsProvider;
+				let got = std::cell::RefCell::new(Vec::new());
+				let refused = std::cell::RefCell::new(Vec::new());
+				self.nodes[i].node.process_pending_events(&|e: Event| {
+					let hold = matches!(e, Event::PaymentSent { .. } | Event::PaymentFailed { .. } | Event::PaymentClaimable { .. }
+						| Event::PaymentClaimed { .. } | Event::PaymentForwarded { .. });
+					if hold { refused.borrow_mut().push(e); Err(lightning::events::ReplayEvent()) } else { got.borrow_mut().push(e); Ok(()) }
+				});
+				for e in refused.into_inner() {
+					let (kind, h) = match e {
+						Event::PaymentSent { payment_hash, .. } => ("PaymentSent", self.hash(&payment_hash.0)),
+						Event::PaymentFailed { payment_hash, .. } => ("PaymentFailed", payment_hash.map(|p| self.hash(&p.0)).unwrap_or(0)),
+						Event::PaymentClaimable { payment_hash, .. } => ("PaymentClaimable", self.hash(&payment_hash.0)),
+						Event::PaymentClaimed { payment_hash, .. } => ("PaymentClaimed", self.hash(&payment_hash.0)),
+						_ => ("PaymentForwarded", 0),
+					};
+					if self.refused_logged.insert((i, kind.to_string(), h)) {
+						let snap = self.mgr_snaps[i].len();
+						self.ev(json!({"ev":"event_refused","node":i,"kind":kind,"hash":h,"snap":snap}));
+					}
+				}
+				got.into_inner()
+			};
 			for e in events {
 				self.log_event(i, e);
 			}
@@ -468,6 +503,9 @@ impl Net {
 				self.mgr_clean[i].push(held.is_empty());
 				self.mgr_held[i].push(held);
 				self.mgr_msgs[i].push(self.msgs_emitted[i]);
+				self.mgr_evheld[i].push(self.hold_events[i]);
+				let w = *self.persisters[i].nwrites.lock().unwrap();
+				self.mgr_writes[i].push(w);
 				let k = self.mgr_snaps[i].len() - 1;
 				self.ev(json!({"ev":"mgr_snap","node":i,"k":k}));
 			}
@@ -892,6 +930,15 @@ impl Net {
 					self.drain();
 				} else { did = false; }
 			},
+			"hold_events" => {
+				let i = op["node"].as_u64().unwrap() as usize;
+				let on = op["on"].as_bool().unwrap_or(true);
+				if i < n {
+					self.hold_events[i] = on;
+					self.ev(json!({"ev":"hold_events","node":i,"on":on}));
+					if !on { self.refused_logged.retain(|x| x.0 != i); self.drain(); }
+				} else { did = false; }
+			},
 			"persist_mode" => {
 				let i = op["node"].as_u64().unwrap() as usize;
 				let inprog = op["mode"].as_str() == Some("inprogress");
@@ -1027,6 +1074,9 @@ impl Net {
 			self.mgr_clean[i].push(self.dirty[i].is_empty());
 			self.mgr_held[i].push(self.dirty[i].clone());
 			self.mgr_msgs[i].push(self.msgs_emitted[i]);
+			self.mgr_evheld[i].push(self.hold_events[i]);
+			let w = *self.persisters[i].nwrites.lock().unwrap();
+			self.mgr_writes[i].push(w);
 			let k = self.mgr_snaps[i].len() - 1;
 			self.ev(json!({"ev":"mgr_snap","node":i,"k":k}));
 		}
@@ -1035,9 +1085,15 @@ impl Net {
 		// use a snapshot taken while nothing was held back by an in-flight monitor update, or one since
 		// which the node has released nothing (the held messages are still held: the restarted node
 		// replays the in-flight updates and sends them then) -- see DESIGN.md 11.2 "C10 snapshots"
-		while k > 0 && !(self.mgr_clean[i][k] || self.mgr_msgs[i][k] == self.msgs_emitted[i]) { k -= 1; }
+		// ... and not one written while the user was refusing events if the node has written to a monitor
+		// since: the manager then counts monitor updates that are blocked behind the unhandled event and
+		// never reached Persist, so "older than its monitor" cannot be told from the recorded update ids
+		let wnow = *self.persisters[i].nwrites.lock().unwrap();
+		while k > 0 && !((self.mgr_clean[i][k] || self.mgr_msgs[i][k] == self.msgs_emitted[i])
+			&& (!self.mgr_evheld[i][k] || self.mgr_writes[i][k] == wnow)) { k -= 1; }
 		let mgr_bytes = self.mgr_snaps[i][k].clone();
 		self.dirty[i] = self.mgr_held[i][k].clone();
+		self.refused_logged.retain(|x| x.0 != i);
 		self.reest_seen.retain(|x| x.0 != i);
 		// monitors
 		let snaps = self.persisters[i].snapshots.lock().unwrap().clone();
@@ -1132,7 +1188,7 @@ fn build_net(run: u64, cfg: &Value, log: &Log) -> Net {
 	let txids = Arc::new(Mutex::new(HashMap::new()));
 	let persisters: &'static Vec<RecPersister> = leak((0..n).map(|i| RecPersister {
 		node: i, log: log.clone(), in_progress: Mutex::new(false), chans: chans.clone(), hashes: hashes.clone(),
-		snapshots: Mutex::new(Vec::new()), last_cp: Mutex::new(HashMap::new()), pending: Mutex::new(Vec::new()),
+		snapshots: Mutex::new(Vec::new()), nwrites: Mutex::new(0), last_cp: Mutex::new(HashMap::new()), pending: Mutex::new(Vec::new()),
 		keys: &cfgs[i].keys_manager, fee_est: &cfgs[i].fee_estimator, logger: &cfgs[i].logger, txids: txids.clone(),
 	}).collect());
 	let mut node_cfgs_v = create_node_cfgs_with_persisters(n, cfgs, persisters.iter().collect());
@@ -1188,13 +1244,15 @@ fn build_net(run: u64, cfg: &Value, log: &Log) -> Net {
 	let mut net = Net {
 		nodes, cfgs, persisters, queues: HashMap::new(), connected, log: log.clone(), chans, hashes, points: Vec::new(),
 		pays: Vec::new(), scids, chan_ids, run, feerate: vec![feerate0; n], executed: 0, skipped: 0,
-		funding_txids: Vec::new(), extra_funding: Vec::new(), extra_broadcast: Vec::new(), mgr_snaps: vec![Vec::new(); n], mgr_clean: vec![Vec::new(); n], mgr_msgs: vec![Vec::new(); n], msgs_emitted: vec![0; n], dirty: vec![HashSet::new(); n], mgr_held: vec![Vec::new(); n], reest_seen: HashSet::new(), saved_idx: vec![None; n], node_cfgs, txids, edges: edges.clone(),
+		funding_txids: Vec::new(), extra_funding: Vec::new(), extra_broadcast: Vec::new(), mgr_snaps: vec![Vec::new(); n], mgr_clean: vec![Vec::new(); n], mgr_msgs: vec![Vec::new(); n], msgs_emitted: vec![0; n], mgr_evheld: vec![Vec::new(); n], mgr_writes: vec![Vec::new(); n], dirty: vec![HashSet::new(); n], mgr_held: vec![Vec::new(); n], reest_seen: HashSet::new(), hold_events: vec![false; n], refused_logged: HashSet::new(), saved_idx: vec![None; n], node_cfgs, txids, edges: edges.clone(),
 	};
 	for i in 0..n {
 		let _ = net.nodes[i].node.get_and_clear_needs_persistence();
 		net.mgr_snaps[i].push(net.nodes[i].node.encode());
 		net.mgr_clean[i].push(true);
 		net.mgr_msgs[i].push(0);
+		net.mgr_evheld[i].push(false);
+		net.mgr_writes[i].push(0);
 		net.mgr_held[i].push(HashSet::new());
 	}
 	for &(i, j) in edges.iter() {
